@@ -118,10 +118,15 @@ class LogicalType(type):  # noqa
         if isinstance(obj, LogicalType):
             return super().__instancecheck__(obj)
         if cls.combinator:
-            for arg in cls.args:
-                if isinstance(arg, type) and isinstance(obj, arg):
-                    return True
-            return False
+            if cls.combinator == "|":
+                return any(isinstance(arg, type) and isinstance(obj, arg) for arg in cls.args)
+            # & ^ ~ : "an instance of some argument" is the answer for a union only; the others are decided
+            # the way a constrained type is, by whether the value parses (same verdict as calling the type)
+            try:
+                cls(obj)
+                return True
+            except exc.ParseError:
+                return False
         origin = getattr(cls, "__origin__", None)
         if isinstance(origin, type):
             if not isinstance(obj, origin):
